@@ -4,10 +4,10 @@ CONSTANTS Callers = {c1, c2}
  MaxRot = 1
  MaxAtt = 2
  FreshKey = FALSE
- MaxJunk = 2
- MaxClose = 0
+ MaxJunk = 0
+ MaxClose = 2
  Kinds = {"obj"}
  Dev = {}
-INVARIANTS WireIdsIncrease SeqNoRules OwnResult TypedVector LoopAlive AcceptedNeverResent SaltPersisted NoStallNotify NoStallDeliver AckedAll
+INVARIANTS WireIdsIncrease SeqNoRules OwnResult TypedVector LoopAlive AcceptedNeverResent SaltPersisted NoStallNotify NoStallDeliver
 PROPERTIES AllDone LoopKeepsReading
 VIEW view
